@@ -79,13 +79,15 @@ def normal_only(label: str | None) -> bool:
 class BoolFacts:
     """Immutable-ish path state: truthiness facts on simple expressions."""
 
-    __slots__ = ("truth", "null", "last_def", "alias", "_key")
+    __slots__ = ("truth", "null", "last_def", "alias", "eq", "ne", "_key", "_eq_const")
 
-    def __init__(self, truth=None, null=None, last_def=None, alias=None):
+    def __init__(self, truth=None, null=None, last_def=None, alias=None, eq=None, ne=None):
         self.truth: dict[str, bool] = truth or {}
         self.null: dict[str, bool] = null or {}  # name -> is None?
         self.last_def: dict[str, Node] = last_def or {}
         self.alias: dict[str, str] = alias or {}  # name -> name it was copied from
+        self.eq: dict[str, str] = eq or {}  # name -> constant it is known to equal (state enums, mode strings)
+        self.ne: dict[str, frozenset] = ne or {}  # name -> constants it is known to differ from
         self._key = None
 
     def key(self) -> tuple:
@@ -96,15 +98,17 @@ class BoolFacts:
                 frozenset((k, v) for k, v in self.truth.items() if isinstance(v, bool)),
                 frozenset(self.null.items()),
                 frozenset(self.alias.items()),
+                frozenset(self.eq.items()),
+                frozenset(self.ne.items()),
             )
         return self._key
 
     def copy(self) -> "BoolFacts":
-        return BoolFacts(dict(self.truth), dict(self.null), dict(self.last_def), dict(self.alias))
+        return BoolFacts(dict(self.truth), dict(self.null), dict(self.last_def), dict(self.alias), dict(self.eq), dict(self.ne))
 
     # -- transfer
     def kill(self, name: str) -> None:
-        for d in (self.truth, self.null, self.alias):
+        for d in (self.truth, self.null, self.alias, self.eq, self.ne):
             for k in list(d):
                 if k == name or k.startswith(name + "."):
                     d.pop(k, None)
@@ -143,12 +147,17 @@ class BoolFacts:
             elif isinstance(v, ast.Constant):
                 self.null[d] = False
                 self.truth[d] = bool(v.value)
+                self.eq[d] = repr(v.value)
             elif isinstance(v, (ast.Call, ast.Await)):
                 cv = v.value if isinstance(v, ast.Await) else v
                 if isinstance(cv, ast.Call) and _ctor_like(cv):
                     self.null[d] = False
             elif isinstance(v, (ast.Name, ast.Attribute)):
                 src = dotted(v)
+                if src and _const_like(src):
+                    # an enum member / module constant: remember the identity
+                    self.eq[d] = src
+                    self.null[d] = False
                 if src:
                     if src in self.truth:
                         self.truth[d] = self.truth[src]
@@ -165,6 +174,8 @@ class BoolFacts:
         key, kind, neg = _classify(expr)
         if key is None:
             return True
+        if kind == "eq":
+            self._eq_const = _eq_const(expr)
         val = outcome != neg
         if kind == "truth":
             for k in (key, self._alias(key)):
@@ -181,6 +192,19 @@ class BoolFacts:
                 self.truth[a] = val
             if val:
                 self.null[key] = False
+        elif kind == "eq":
+            const = self._eq_const
+            known = self.eq.get(key)
+            if known is not None:
+                if (known == const) != val:
+                    return False
+            elif val:
+                if const in self.ne.get(key, frozenset()):
+                    return False
+                self.eq[key] = const
+                self.null[key] = False
+            else:
+                self.ne[key] = self.ne.get(key, frozenset()) | {const}
         elif kind == "null":
             known = self.null.get(key)
             if known is not None and known != val:
@@ -191,6 +215,27 @@ class BoolFacts:
             if val:
                 self.truth[key] = False
         return True
+
+
+def _const_like(d: str) -> bool:
+    """Dotted name that denotes a constant: Enum member `State.WAITING`, or an
+    ALL_CAPS module constant."""
+    parts = d.split(".")
+    return (len(parts) == 2 and parts[0][:1].isupper() and parts[1].isupper()) or (len(parts) == 1 and parts[0].isupper() and len(parts[0]) > 1)
+
+
+def _eq_const(expr: ast.AST) -> str | None:
+    while isinstance(expr, ast.UnaryOp) and isinstance(expr.op, ast.Not):
+        expr = expr.operand
+    if not (isinstance(expr, ast.Compare) and len(expr.ops) == 1):
+        return None
+    r = expr.comparators[0]
+    if isinstance(r, ast.Constant) and isinstance(r.value, (str, int, bool)) :
+        return repr(r.value)
+    d = dotted(r)
+    if d and _const_like(d):
+        return d
+    return None
 
 
 # zero-argument query methods whose outcome is remembered along a path (until
@@ -224,6 +269,11 @@ def _classify(expr: ast.AST):
     ):
         d = dotted(expr.func)
         return (d + "()", "truth", neg) if d else (None, None, False)
+    if isinstance(expr, ast.Compare) and len(expr.ops) == 1 and not is_none(expr.comparators[0]) and isinstance(expr.ops[0], (ast.Eq, ast.NotEq, ast.Is, ast.IsNot)):
+        d = dotted(expr.left)
+        c = _eq_const(expr)
+        if d is not None and c is not None:
+            return (d, "eq", neg != isinstance(expr.ops[0], (ast.NotEq, ast.IsNot)))
     if isinstance(expr, ast.Compare) and len(expr.ops) == 1 and is_none(expr.comparators[0]):
         d = dotted(expr.left)
         if d is None:
